@@ -6,6 +6,7 @@ import z3
 
 from vf import driver, cfront
 from contracts.py import constexpr, preproc, parsedecl
+from contracts.c import typestr
 
 PID = 'C30'
 
@@ -23,6 +24,21 @@ for d in decls:
         pass
     except Exception as e:
         bad.append("cdef(%%r) raised %%s: %%s" %% (d, e.__class__.__name__, str(e).split("\n")[0]))
+# compiled FFIs: typeof() on strings that cannot be encoded, are empty, hold NULs ... (a crash is a FAIL: child process)
+import subprocess
+child = r"""
+import _cffi_backend
+f = _cffi_backend.FFI()
+for s in ["\udc80", "int \udfff", "", "\x00", "int\x00*", "\U0010ffff", "int[", "(((((((((", "x" * 5000]:
+    try:
+        f.typeof(s)
+    except (f.error, TypeError, ValueError):
+        pass
+print("child-ok")
+"""
+r = subprocess.run([sys.executable, "-c", child], capture_output=True, text=True)
+if r.returncode != 0 or "child-ok" not in r.stdout:
+    bad.append("typeof() on a compiled FFI: exit status %%d %%s" %% (r.returncode, r.stderr.strip().split("\n")[-1][:120]))
 if bad:
     print("FAIL " + " ;; ".join(bad[:4])); sys.exit(1)
 print("ok")
@@ -81,7 +97,8 @@ def macros_bounded(rep, tu):
 
 def main(tier, seed):
     return driver.run_property(
-        PID, tier, seed, py_items=constexpr.c30_items() + preproc.items() + parsedecl.items(), concretise=concretise, extra=macros_bounded,
+        PID, tier, seed, c_part=(typestr.R, typestr.C30_C_FUNCS), layout_types=('PyObject', 'PyTypeObject', 'CDataObject', 'FFIObject'),
+        py_items=constexpr.c30_items() + preproc.items() + parsedecl.items(), concretise=concretise, extra=macros_bounded,
         trusted=["scope of the proved part: the constant-expression evaluator Parser._parse_constant/_c_div (every "
                  "AST node class and operator): no built-in operation in it can raise anything but cffi's error "
                  "classes; recursive calls through the function's own contract",
@@ -89,6 +106,9 @@ def main(tier, seed):
                  "decl.init = None and an instance of every node class of the installed pycparser (attribute sets from "
                  "its __slots__; reading any other attribute is AttributeError), and for a UnaryOp every operator "
                  "spelling x every node class as operand; the literal regex test is an arbitrary boolean",
+                 "compiled FFIs: _ffi_type (ffi_obj.c), the entry of ffi.typeof(string) & co.: a ctype or NULL with an exception "
+                 "for ANY argument, and the type-string parser is handed a C string (call-site obligation); parse_c_type, "
+                 "realize_c_type_or_func, _ffi_bad_type, unwrap_fn_as_fnptr are assumed contracts here",
                  "bounded stand-in (not proof): '#define' literal processing on all short values, real code",
                  "not decided: pycparser (third party: may raise only ParseError is an assumption the property does not "
                  "grant), the regex preprocessing of cdef text, the rest of cparser.py, and the C type-string parser "
